@@ -11,6 +11,7 @@ import numpy as np
 from rv import core, zoo, monitors
 
 LEVEL = 'exploration'
+LEVEL_TEXT = 'Contract on the real density2d: bin atomicity from an independently recomputed event-to-bin map, target count, minimality and density order on the documented smoothed density, plus permutation/nesting/replay metamorphic runs and refusals; also evaluated in situ inside the Excel workflow (C10). Exploration.'
 TECHNIQUE = 'runtime contract on density2d (independent bin map + smoothed-density order oracle) + metamorphic driver (permute, nest, replay)'
 RULE = ('event sets {gaussian blobs, mixtures, uniform, tied small-integer lattices} with/without out-of-grid events, '
         '2..N events x bins {count, explicit uneven edges, [int,array] mixtures, sample-derived linear/log/logicle} x '
